@@ -1,9 +1,12 @@
 """C02 — JWE decryption returns only authenticated plaintext."""
 from __future__ import annotations
 
+import copy
 import json
 
+from common import err_name
 from harness import jwecases as E
+from harness import keys as K
 from harness import jweref as R
 
 RULE = ("JWEs built by the independent reference implementation for all 21 key-management algorithms x 8 content encryptions x "
@@ -103,6 +106,7 @@ def run(ctx):
         c.expect = expect
         mc.append(c)
     E.run_decrypt_cases(ctx, "jwe-multi", mc, check_c02=False, prop="C02")
+    same_kid_substitution(ctx)
     if ctx.tier == "thorough":
         rng = ctx.rng
         for alg, enc in (("dir", "A128GCM"), ("A128KW", "A128CBC-HS256"), ("ECDH-ES", "A256GCM"), ("RSA-OAEP", "A192CBC-HS384")):
@@ -116,6 +120,59 @@ def run(ctx):
                     parts[si] = E.flip(seg, rng, bit)
                     allbits.append(E.DCase(b".".join(parts), c.key, c.sender, c.reg, f"flip-bit-{si}-{bit}", c.meta))
             E.run_decrypt_cases(ctx, "jwe-all-bits", allbits, check_c02=True, expect=expect_valid, prop="C02")
+
+
+def same_kid_substitution(ctx):
+    """Key substitution that a lookup, cache or memo keyed by `kid` would not see: long-lived key OBJECTS (as an
+    application holds them), a genuine decryption first, then the same token with a DIFFERENT key pair that carries the same
+    kid - as recipient key, and for ECDH-1PU as sender key - in both orders; reference-built tokens, every serialization.
+    The wrong key never yields a plaintext, and the right key still does after the wrong one was tried."""
+    from joserfc import jwe
+    rng = ctx.rng
+    plans = [("ECDH-1PU", "A128GCM", "p256", "p256b", "p256"), ("ECDH-1PU+A128KW", "A128CBC-HS256", "x25519", "x25519b", "x25519"),
+             ("ECDH-ES", "A128GCM", "p256", None, "p256b"), ("ECDH-ES+A128KW", "A256GCM", "x25519", None, "x25519b"),
+             ("A128KW", "A128GCM", "oct16", None, "oct16b"), ("RSA-OAEP", "A128GCM", "rsa2048", None, "rsa2048b"), ("dir", "A128GCM", "oct16", None, "oct16b")]
+    names = set(K.names())
+    for alg, enc, rk, sk, other in plans:
+        if rk not in names or other not in names or (sk and sk not in names):
+            continue
+        for ser in ("compact", "flat", "general"):
+            c = E.build(rng, alg, enc, ser, b"for the named key pair", kn=rk, header_extra={"kid": "the-kid"} if not sk else {"kid": "the-kid", "skid": "sender-kid"})
+            right_r = K.key(rk, private=True, kid="the-kid")
+            wrong_r = K.key(other if not sk else ("p256b" if rk == "p256" else "x25519b"), private=True, kid="the-kid")
+            right_s = K.key(sk, private=False, kid="sender-kid") if sk else None
+            wrong_s = K.key(rk, private=False, kid="sender-kid") if sk else None      # another pair on the same curve, same kid
+            kw = {"algorithms": E.ALL_NAMES}
+
+            def dec(rkey, skey, c=c, ser=ser):
+                try:
+                    v = c.value if ser == "compact" else copy.deepcopy(c.value)
+                    o = jwe.decrypt_compact(v, rkey, sender_key=skey, **kw) if ser == "compact" else jwe.decrypt_json(v, rkey, sender_key=skey, **kw)
+                    return ("ok", o.plaintext)
+                except Exception as e:  # noqa: BLE001
+                    return ("err", err_name(e))
+            orders = [[("right", right_r, right_s), ("wrong-recipient", wrong_r, right_s), ("right", right_r, right_s)]]
+            if sk:
+                orders.append([("right", right_r, right_s), ("wrong-sender", right_r, wrong_s), ("right", right_r, right_s), ("wrong-sender", right_r, wrong_s)])
+                orders.append([("wrong-sender", right_r, wrong_s), ("right", right_r, right_s), ("wrong-sender", right_r, wrong_s)])
+            for order in orders:
+                # fresh long-lived objects per history
+                trace = []
+                for what, rkey, skey in order:
+                    out = dec(rkey, skey)
+                    trace.append((what, out[0] if out[0] == "err" else "ok", out[1] if out[0] == "err" else ""))
+                    ctx.count("same-kid-substitution", (alg, ser, tuple(w for w, _, _ in order), len(trace)), True, f"{what}:{out[0] if out[0] == 'ok' else out[1]}")
+                    if what == "right" and out != ("ok", b"for the named key pair"):
+                        ctx.report(f"{alg} ({ser}): the right key pair no longer decrypts after the call history {[t[0] for t in trace]}: {out[1]}",
+                                   {"alg": alg, "serialization": ser, "history": trace, "token": c.describe()["value"]}, f"same-kid:{alg}:right-refused")
+                    if what != "right" and out[0] == "ok":
+                        ctx.report(f"{alg} ({ser}): a {what.replace('-', ' ')} key (another key pair carrying the same kid) returned the plaintext after the call history "
+                                   f"{[t[0] for t in trace]}", {"alg": alg, "serialization": ser, "history": trace, "token": c.describe()["value"],
+                                                               "wrong_key": (skey if what == "wrong-sender" else rkey).as_dict(private=False) if (skey if what == "wrong-sender" else rkey).key_type != "oct" else "oct"},
+                                   f"same-kid:{alg}:{what}")
+                # new objects for the next history
+                right_r = K.key(rk, private=True, kid="the-kid")
+                right_s = K.key(sk, private=False, kid="sender-kid") if sk else None
 
 
 def search(ctx):
